@@ -54,6 +54,12 @@ Proof. destruct a; cbn; congruence. Qed.
 Theorem unsupported_reported : forall p typs, must_report p typs = true -> run_model p typs = Err.
 Proof.
   intros p typs M. destruct p; cbn [must_report] in M; try discriminate.
+  - (* all: a variadic predicate *)
+    apply run_err_of_add_not_ok. cbn [add_model]. intros A.
+    apply validate_exact_pred in A as (t & ->). discriminate M.
+  - (* any *)
+    apply run_err_of_add_not_ok. cbn [add_model]. intros A.
+    apply validate_exact_pred in A as (t & ->). discriminate M.
   - (* apply *)
     destruct typs as [|[] [|? [|? ?]]]; try discriminate. subst. apply run_err_of_add. reflexivity.
   - (* clone *)
@@ -78,11 +84,17 @@ Proof.
   - (* equal *)
     destruct typs as [|t r]; try discriminate.
     apply run_err_of_gen. cbn. apply unsupported_reported_equal; exact M.
+  - (* filter *)
+    apply run_err_of_add_not_ok. cbn [add_model]. intros A.
+    apply validate_exact_pred in A as (t & ->). discriminate M.
   - (* flip *)
     destruct typs as [|[] [|? ?]]; try discriminate. subst. apply run_err_of_add. reflexivity.
-  - (* fmap: a send only channel *)
-    destruct typs as [|f [|c [|? ?]]]; try discriminate. destruct c; try discriminate.
-    destruct d; try discriminate. apply run_err_of_add. reflexivity.
+  - (* fmap: a variadic function, a send only channel *)
+    apply run_err_of_add_not_ok. cbn [add_model]. intros A.
+    apply validate_exact_fmap in A
+      as [(e & r & ->)|[(k & r & -> & K)|[(e & rs & er & v' & -> & E)|(e & r & d & -> & N)]]];
+      cbn in M; try discriminate M.
+    destruct d; try discriminate M. congruence.
   - (* gostring *)
     destruct typs as [|t [|? ?]]; try discriminate.
     destruct (is_unil t) eqn:U.
@@ -123,9 +135,9 @@ Proof.
     destruct typs as [|a [|b [|? ?]]]; try discriminate. apply run_err_of_gen. cbn. unfold minmax_gen.
     destruct (identical a b); [apply minmax_elem_unsup; exact M|].
     destruct a; try discriminate. apply minmax_elem_unsup. exact M.
-  - (* pipeline: the first function's channel is send only / the second one's is not receive only *)
+  - (* pipeline: a variadic function / the first function's channel is send only / the second one's is not receive only *)
     apply run_err_of_add_not_ok. cbn [add_model]. intros A.
-    apply validate_exact_pipeline in A as (a & b & c & d1 & v1 & v2 & -> & N).
+    apply validate_exact_pipeline in A as (a & b & c & d1 & -> & N).
     cbn in M. destruct d1; try discriminate M. congruence.
   - (* set *)
     destruct typs as [|[] [|? ?]]; try discriminate. apply run_err_of_gen. cbn.
@@ -137,9 +149,15 @@ Proof.
     + cbn in M. try rewrite andb_true_l in M. apply bkind_eqb_eq in M; subst. reflexivity.
     + destruct t; try reflexivity; try exact C.
       cbn in M. try rewrite andb_true_l in M. apply bkind_eqb_eq in M; subst. reflexivity.
+  - (* takewhile *)
+    apply run_err_of_add_not_ok. cbn [add_model]. intros A.
+    apply validate_exact_pred in A as (t & ->). discriminate M.
   - (* toerror *)
     destruct typs as [|e [|[] [|? ?]]]; try discriminate. subst.
     apply run_err_of_add. cbn. destruct (is_error e); reflexivity.
+  - (* traverse: a variadic function *)
+    apply run_err_of_add_not_ok. cbn [add_model]. intros A.
+    apply validate_exact_traverse in A as (t & r & e & -> & E). discriminate M.
   - (* tuple: an untyped nil among the arguments *)
     apply run_err_of_add_not_ok. cbn [add_model]. intros A.
     apply validate_exact_tuple in A as [_ A]. apply existsb_unil_false in A.
@@ -162,6 +180,20 @@ Example unsupported_reported_instances :
   must_report PJoin [AChan DBoth (AChan DRecv (ABasic KInt))] = false /\
   run_model PJoin [AChan DBoth (AChan DRecv (ABasic KInt))] = Ok /\
   must_report PTuple [ABasic KInt; ABasic KUNil] = true /\
+  (* a variadic function whose parameter type fits the list / the channel / the next function *)
+  must_report PFmap [ASig (TCons (ASlice (ABasic KInt)) TNil) (TCons (ABasic KString) TNil) true; ASlice (ASlice (ABasic KInt))] = true /\
+  must_report PFmap [ASig (TCons (ASlice (ABasic KInt)) TNil) (TCons (ABasic KString) TNil) false; ASlice (ASlice (ABasic KInt))] = false /\
+  run_model PFmap [ASig (TCons (ASlice (ABasic KInt)) TNil) (TCons (ABasic KString) TNil) false; ASlice (ASlice (ABasic KInt))] = Ok /\
+  must_report PFilter [ASig (TCons (ASlice (ABasic KInt)) TNil) (TCons (ABasic KBool) TNil) true; ASlice (ASlice (ABasic KInt))] = true /\
+  must_report PTraverse [ASig (TCons (ASlice (ABasic KInt)) TNil) (TCons (ABasic KString) (TCons AErr TNil)) true; ASlice (ASlice (ABasic KInt))] = true /\
+  must_report PPipeline [ASig (TCons (ASlice (ABasic KInt)) TNil) (TCons (AChan DRecv (ABasic KInt)) TNil) true;
+                         ASig (TCons (ABasic KInt) TNil) (TCons (AChan DRecv (ABasic KString)) TNil) false] = true /\
+  must_report PPipeline [ASig (TCons (ABasic KInt) TNil) (TCons (AChan DRecv (ASlice (ABasic KInt))) TNil) false;
+                         ASig (TCons (ASlice (ABasic KInt)) TNil) (TCons (AChan DRecv (ABasic KString)) TNil) true] = true /\
+  run_model PPipeline [ASig (TCons (ABasic KInt) TNil) (TCons (AChan DRecv (ASlice (ABasic KInt))) TNil) false;
+                       ASig (TCons (ASlice (ABasic KInt)) TNil) (TCons (AChan DRecv (ABasic KString)) TNil) false] = Ok /\
+  (* a variadic function that is only passed through keeps working *)
+  run_model PTuple [ASig (TCons (ASlice (ABasic KInt)) TNil) (TCons (ABasic KBool) TNil) true; ABasic KString] = Ok /\
   run_model PTuple [ABasic KUInt; ABasic KUString] = Ok /\
   must_report PHash [ABasic KUNil] = true /\ run_model PHash [ABasic KUInt] = Ok /\
   run_model PClone [ABasic KUString] = Ok /\
